@@ -60,7 +60,7 @@ CHECKS = {
             "DESIGN.md §5 C06"),
     "C15": ("taskmc", "fault_enumeration",
             "enumeration of every transport-operation index as fault point (error / end-of-stream) and of the clean causes at every application stage, each with deviation-bounded schedule exploration, on real clients",
-            "A victim client holds pending work of every kind at once (call awaiting its reply, own service awaiting calls, subscribed proxy, sender blocked on credit, receiver awaiting items, started bus listener, lifetime, sync_broker in flight) or subsets; a healthy peer is its counterpart. For every index k of the victim's transport operations (receive, send, flush; counted on the canonical run, incl. the handshake) an error, an end-of-stream and a write-half failure (sends and flushes fail, the read half stays silent) are injected at k, and likewise at every operation index of the broker side of the victim's transport; Handle::shutdown, BrokerHandle::shutdown and shutdown_connection strike at every stage of setting up the pending work, alone and combined with a transport fault at every operation of the shutdown sequence itself; x unbounded / bounded transports and versions; x all schedules with <= 1 (thorough 2) deviations. Oracles: Client::run returns (Ok for clean causes, the transport error for a delivered fault, never a panic or UnexpectedMessageReceived); every pending and every later operation completes; the peer is unaffected; the broker side sees the connection closed and its snapshot is empty after both clients ended.",
+            "A victim client holds pending work of every kind at once (call awaiting its reply, call whose reply the application drops when it asks for the shutdown, own service awaiting calls, subscribed proxy, sender blocked on credit, receiver awaiting items, started bus listener, lifetime, sync_broker in flight) or subsets; a healthy peer is its counterpart. For every index k of the victim's transport operations (receive, send, flush; counted on the canonical run, incl. the handshake) an error, an end-of-stream and a write-half failure (sends and flushes fail, the read half stays silent) are injected at k, and likewise at every operation index of the broker side of the victim's transport; Handle::shutdown, BrokerHandle::shutdown and shutdown_connection strike at every stage of setting up the pending work, alone and combined with a transport fault at every operation of the shutdown sequence itself; x unbounded / bounded transports and versions; x all schedules with <= 1 (thorough 2) deviations. Oracles: Client::run returns (Ok for clean causes, the transport error for a delivered fault, never a panic or UnexpectedMessageReceived); every pending and every later operation completes; the peer is unaffected; the broker side sees the connection closed and its snapshot is empty after both clients ended; an execution that does not return from a poll within 30 s is reported by a watchdog (endless loop in the subject).",
             "fault index taken from the canonical run; broker shutdown tears connections down in hash order, which is tolerated as divergence and counted",
             "DESIGN.md §5 C15"),
     "C19": ("taskmc", "exploration",
